@@ -1,5 +1,9 @@
 use vstd::prelude::*;
 verus! {
+// 16-bit quantities on the wire: big-endian (Modbus data) and little-endian (RTU CRC trailer)
+pub open spec fn be16(s: Seq<u8>, i: int) -> int { s[i] as int * 256 + s[i + 1] as int }
+pub open spec fn le16(s: Seq<u8>, i: int) -> int { s[i] as int + s[i + 1] as int * 256 }
+
 // ---- std shims shared by all units (each assume_specification restates the std documentation) ----
 #[verifier::external_type_specification]
 pub struct ExIoErrorKind(std::io::ErrorKind);
@@ -24,6 +28,12 @@ pub assume_specification[ <std::io::Error as From<std::io::ErrorKind>>::from ](k
     ensures io_error_kind(r) == k;
 
 pub uninterp spec fn nz_value(n: std::num::NonZeroUsize) -> usize;
+
+pub assume_specification<T, const N: usize> [<[T; N] as AsMut<[T]>>::as_mut] (a: &mut [T; N]) -> (r: &mut [T])
+    ensures r@ == old(a)@, final(a)@ == final(r)@;
+
+pub assume_specification<Idx: Clone> [<core::ops::Range<Idx> as Clone>::clone] (a: &core::ops::Range<Idx>) -> (r: core::ops::Range<Idx>)
+    ensures call_ensures(Idx::clone, (&a.start,), r.start), call_ensures(Idx::clone, (&a.end,), r.end);
 
 // module tree of the rodbus crate (contents are fragments; every item text comes from /repo)
 pub mod error {
@@ -385,6 +395,8 @@ fn from(ex: ExceptionCode) -> (r: Self)
 pub mod types {
 use vstd::prelude::*;
 use crate::error::*;
+use crate::shims::scursor::ReadCursor;
+use crate::be16;
 
 #[derive(Clone, Copy)]
 pub struct UnitId {
@@ -428,6 +440,12 @@ pub struct BitIterator<'a> {
 pub struct AddressIterator {
     pub current: u16,
     pub remain: u16,
+}
+#[derive(Copy, Clone)]
+pub struct RegisterIterator<'a> {
+    pub bytes: &'a [u8],
+    pub range: AddressRange,
+    pub pos: u16,
 }
 
 // ---- specification vocabulary (from the property statements) ----
@@ -615,7 +633,73 @@ pub fn next(&mut self) -> (r: Option<u16>)
     }
 }
 
+impl<'a> RegisterIterator<'a> {
+    // established by parse_all: a valid range, exactly 2*count bytes
+    pub open spec fn wf(&self) -> bool {
+        self.range.wf() && self.pos <= self.range.count && self.bytes@.len() as int == 2 * self.range.count as int
+    }
+    // the k-th register of the payload, big-endian, at address start+k
+    pub open spec fn spec_item(&self, k: int) -> Indexed<u16> {
+        Indexed { index: (self.range.start as int + k) as u16, value: be16(self.bytes@, 2 * k) as u16 }
+    }
+    // all values, in order (what the handler / the caller of the client API receives)
+    pub open spec fn spec_values(&self) -> Seq<u16> { Seq::new(self.range.count as nat, |k: int| be16(self.bytes@, 2 * k) as u16) }
+
+// exact-length parse: the body must be exactly 2*count bytes [C01,C04]
+pub fn parse_all(
+        range: AddressRange,
+        cursor: &'a mut ReadCursor,
+    ) -> (r: Result<Self, RequestError>)
+    requires old(cursor).wf(),
+    ensures final(cursor).wf(),
+        r is Ok <==> old(cursor).rest().len() == 2 * range.count as int,
+        r is Ok ==> r->Ok_0.range == range && r->Ok_0.pos == 0 && r->Ok_0.bytes@ == old(cursor).rest() && (range.wf() ==> r->Ok_0.wf()),
+{
+        let bytes = cursor.read_bytes(2 * (range.count as usize))?;
+        cursor.expect_empty()?;
+        Ok(Self {
+            bytes,
+            range,
+            pos: 0,
+        })
+    }
+
+// (slice pattern `Some([high, low])` is outside the Verus subset: the body is decided by Kani, harness k_register_iterator_next
+//  [complete for every payload of 1..=125 registers and every position]; only the contract is used by Verus callers)
+#[verifier::external_body]
+pub fn next(&mut self) -> (r: Option<Indexed<u16>>)
+    requires old(self).wf(),
+    ensures
+        final(self).wf(),
+        final(self).bytes@ == old(self).bytes@, final(self).range == old(self).range,
+        old(self).pos == old(self).range.count ==> r is None && final(self).pos == old(self).pos,
+        old(self).pos < old(self).range.count ==> r == Some(old(self).spec_item(old(self).pos as int))
+            && final(self).pos == old(self).pos + 1,
+{ unimplemented!() }
+}
+
 impl<'a> BitIterator<'a> {
+    pub open spec fn spec_values(&self) -> Seq<bool> { Seq::new(self.range.count as nat, |k: int| spec_bit(self.bytes@, k)) }
+
+// exact-length parse: the body must be exactly ceil(count/8) bytes [C01,C04]
+pub fn parse_all(
+        range: AddressRange,
+        cursor: &'a mut ReadCursor,
+    ) -> (r: Result<Self, RequestError>)
+    requires old(cursor).wf(),
+    ensures final(cursor).wf(),
+        r is Ok <==> old(cursor).rest().len() == (range.count as int + 7) / 8,
+        r is Ok ==> r->Ok_0.range == range && r->Ok_0.pos == 0 && r->Ok_0.bytes@ == old(cursor).rest() && (range.wf() ==> r->Ok_0.wf()),
+{
+        let bytes = cursor.read_bytes(crate::common::bits::num_bytes_for_bits(range.count))?;
+        cursor.expect_empty()?;
+        Ok(Self {
+            bytes,
+            range,
+            pos: 0,
+        })
+    }
+
     // established by parse_all: a valid range, exactly ceil(count/8) bytes
     pub open spec fn wf(&self) -> bool {
         self.range.wf() && self.pos <= self.range.count
@@ -808,6 +892,13 @@ pub open spec fn appended(o: &WriteCursor, n: &WriteCursor, out: Seq<u8>) -> boo
     n.wf() && n.cap() == o.cap() && n.pos == o.pos + out.len()
     && (forall|i: int| 0 <= i < o.pos ==> #[trigger] n.buf()[i] == o.buf()[i])
     && (forall|i: int| 0 <= i < out.len() ==> #[trigger] n.buf()[o.pos + i] == out[i])
+}
+// updating a byte outside [a, b) does not change that sub-range (pure sequence fact)
+pub broadcast proof fn lemma_subrange_update_outside(s: Seq<u8>, i: int, v: u8, a: int, b: int)
+    requires 0 <= a <= b <= s.len(), 0 <= i < s.len(), i < a || b <= i,
+    ensures #[trigger] s.update(i, v).subrange(a, b) == s.subrange(a, b)
+{
+    assert(s.update(i, v).subrange(a, b) =~= s.subrange(a, b));
 }
 
     }
